@@ -52,6 +52,7 @@ type req struct {
 	A       []val           `json:"a"`
 	B       []val           `json:"b"`
 	ErrMode string          `json:"errmode"`
+	Verbose bool            `json:"verbose"`
 	Raw     json.RawMessage `json:"raw"`
 }
 
@@ -59,6 +60,7 @@ var (
 	recMu    sync.Mutex
 	recCalls int
 	recLast  []val
+	recAll   [][]val
 	theCtx   context.Context
 )
 
@@ -187,6 +189,7 @@ func record(id int, fixed []interface{}, tail interface{}) {
 		}
 	}
 	recLast = out
+	recAll = append(recAll, out)
 }
 
 func vals(vs []val) []interface{} {
@@ -266,6 +269,8 @@ type pairRes struct {
 	IDEq   bool   `json:"ideq"`
 	NameEq bool   `json:"nameeq"`
 	Panic  string `json:"panic,omitempty"`
+	// what each execution received, in execution order (the bodies ran through mg.Deps)
+	Received [][]val `json:"received"`
 }
 
 func doPair(target interface{}, a, b []interface{}) (res pairRes) {
@@ -280,13 +285,16 @@ func doPair(target interface{}, a, b []interface{}) (res pairRes) {
 	res.NameEq = fa.Name() == fb.Name()
 	recMu.Lock()
 	recCalls = 0
+	recAll = nil
 	recMu.Unlock()
 	func() {
 		defer func() { recover() }() // pool functions with an error result return poolErr
-		mg.Deps(fa, fb)
+		mg.CtxDeps(theCtx, fa, fb)
 	}()
 	recMu.Lock()
 	res.Execs = recCalls
+	res.Received = recAll
+	recAll = nil
 	recMu.Unlock()
 	return res
 }
@@ -332,6 +340,11 @@ func main() {
 			ans = doF(target, vals(r.Args))
 		case "pair":
 			poolErr = nil
+			if r.Verbose {
+				os.Setenv("MAGEFILE_VERBOSE", "1") // the "Running dependency:" line is written right before the body runs
+			} else {
+				os.Setenv("MAGEFILE_VERBOSE", "0")
+			}
 			ans = doPair(pool[r.Fn], vals(r.A), vals(r.B))
 		default:
 			ans = dispatchMore(r)
